@@ -74,7 +74,7 @@ SPECS = [
     spec("C02", "exploration", "C02: for Find Information / Read By Type / Read By Group Type the model computes the set M of in-range "
          "matching attributes; the response must be the leading part of M (nothing skipped, ascending, right type), Attribute Not Found "
          "iff M is empty; complete iteration procedures must enumerate M exactly once.",
-         {"min_evaluations": 5000, "min_distinct": 200, "classes": ["findinfo_range_attr_gap", "findinfo_range_gap_attr", "rbt_match", "rbt_no_match", "iterate_findinfo", "iterate_read_by_type", "rbgt_range_attr_gap"]},
+         {"min_evaluations": 5000, "min_distinct": 200, "classes": ["findinfo_range_attr_gap", "findinfo_range_gap_attr", "rbt_match", "rbt_no_match", "iterate_findinfo", "iterate_read_by_type", "rbgt_range_attr_gap", "range_sweep"]},
          "reference-model monitor (attribute set in range) + GATT iteration procedures"),
     spec("C03", "exploration", "C03: Read By Group Type and Find By Type Value for Primary Service against the model's service list "
          "(kind, uuid, first/last handle); complete discovery procedures per service uuid.",
